@@ -772,8 +772,18 @@ def r16_ref_pattern(src, ctx):
     return re.sub(r'if let Some\(&(\w+)\) = ([^{]*?) \{', rep, src)
 
 
+def r17_range_inclusive(src, ctx):
+    """`for x in a..=b {` -> `for x in a..(b + 1) {` (definition of RangeInclusive iteration; b + 1 must not overflow: Verus checks it)."""
+    def rep(m):
+        new = f'for {m.group(1)} in {m.group(2)}..({m.group(3)} + 1) {{'
+        ctx.log.append(('R17', m.group(0), new))
+        return new
+    return re.sub(r'for (\w+) in (\w+)\.\.=(\w+) \{', rep, src)
+
+
 def apply_all(src, ctx):
     src = r0_strip(src, ctx)
+    src = r17_range_inclusive(src, ctx)
     src = r16_ref_pattern(src, ctx)
     src = r14_wild_closure(src, ctx)
     src = r1_derive(src, ctx)
